@@ -1,5 +1,5 @@
 (* C15 — the writer-wrapping mechanism refines the item-level specification. *)
-From Coq Require Import List NArith Bool Lia.
+From Coq Require Import List NArith Bool Lia Arith.
 From MV Require Import Common.Sx C15.Model C15.Spec.
 Import ListNotations.
 Local Open Scope N_scope.
@@ -532,4 +532,27 @@ Lemma calls_dims_force_comm : forall e d f, calls (WithDimsE (ForceE e f) d) = c
 Proof.
   intros. rewrite !calls_spec. cbn [spec_calls].
   rewrite map_cut_same by apply i_dims_is_panic. rewrite !map_map. f_equal. apply map_ext. apply i_dims_force_comm.
+Qed.
+
+(* ------------------------------------------------------------------ adapters keep their state *)
+Lemma snext_spec : forall fs k s e, snext fs k s e = (s, spec_result fs k s, deliver s e).
+Proof.
+  intros fs k s; induction s; intros e; cbn [snext spec_result deliver]; try (rewrite IHs; reflexivity); auto.
+  - destruct d; rewrite IHs; reflexivity.
+  - rewrite IHs1, IHs2. reflexivity.
+Qed.
+
+(* for every history of results: entry number k through a used adapter = entry number k through a fresh one *)
+Theorem sfeed_spec : forall fs es k s, sfeed fs k s es = spec_feed deliver fs k s es.
+Proof.
+  induction es as [|e r IH]; intros k s; cbn [sfeed spec_feed]; auto.
+  rewrite snext_spec, IH. reflexivity.
+Qed.
+Corollary sfeed_nth : forall fs es k s i e, nth_error es i = Some e ->
+  nth_error (sfeed fs k s es) i = Some (spec_result fs (k + i) s, deliver s e).
+Proof.
+  intros fs es; induction es as [|x r IH]; intros k s i e H; destruct i; cbn in H; try discriminate.
+  - inversion H; subst. rewrite sfeed_spec. cbn. rewrite Nat.add_0_r. reflexivity.
+  - rewrite sfeed_spec. cbn [spec_feed nth_error]. rewrite <- sfeed_spec, (IH (Datatypes.S k) s i e H).
+    rewrite Nat.add_succ_r. reflexivity.
 Qed.
